@@ -374,6 +374,24 @@ func runNegA(c *negCase) (string, string) {
 		SkipHostEnv:      true,
 		AllowedProtocols: []plugin.Protocol{plugin.ProtocolNetRPC, plugin.ProtocolGRPC},
 	}
+	// version sets that do not intersect are an incompatible-VERSION error whatever wire protocol the plugin's lowest set
+	// uses: such hosts allow one protocol only (alternating), so that the announced protocol is often not allowed either
+	if c.cor == "none" {
+		hp, hh := c.plug.foldPlugin(), c.host.foldHost()
+		disjoint := len(hp) > 0 && len(hh) > 0 // (a side without any set still has its legacy version number)
+		for v := range hh {
+			if _, ok := hp[v]; ok {
+				disjoint = false
+			}
+		}
+		if disjoint {
+			if (c.host.lv+len(c.host.vs)+len(c.plug.vs))%2 == 0 {
+				cfg.AllowedProtocols = []plugin.Protocol{plugin.ProtocolNetRPC}
+			} else {
+				cfg.AllowedProtocols = []plugin.Protocol{plugin.ProtocolGRPC}
+			}
+		}
+	}
 	if len(c.host.vs) > 0 || !c.host.nilMap {
 		cfg.VersionedPlugins = map[int]plugin.PluginSet{}
 		for _, v := range c.host.vs {
